@@ -160,6 +160,23 @@ impl Sut {
                     apply_writes(&mut txn, writes)?;
                     if *commit {
                         txn.commit().map_err(|e| e.to_string())
+                    } else if writes.len() % 3 == 1
+                        && let Some(node) = {
+                            use ndb_core::GraphSnapshot;
+                            db.snapshot().nodes().next()
+                        }
+                    {
+                        // a transaction that ends with a FAILED commit: one more write carries a
+                        // value nested deeper than the log accepts, so commit() must return Err
+                        let mut deep = nervusdb_api::PropertyValue::Int(1);
+                        for _ in 0..1100 {
+                            deep = nervusdb_api::PropertyValue::List(vec![deep]);
+                        }
+                        txn.set_node_property(node, "poison".into(), deep).map_err(|e| e.to_string())?;
+                        match txn.commit() {
+                            Err(_) => Ok(()),
+                            Ok(()) => Err("a commit carrying an over-deep value succeeded (harness expected it to fail)".into()),
+                        }
                     } else {
                         drop(txn);
                         Ok(())
